@@ -35,6 +35,7 @@ def wrap_exact(x, c, P):
 
 
 # ------------------------------------------------------------------------------ generator
+RECONF_FOCUS = {"p_restart": 0.2, "p_reconf": 0.7, "p_out": 0.35, "p_eb": 0.0}
 REBIN_FOCUS = {"use_grids": True, "p_expand": 0.0, "sig_mode": False, "keep": True, "p_eb": 0.0, "periodic": False,
                "p_restart": 0.15, "p_out": 0.4, "big_grids": True}
 
@@ -116,15 +117,20 @@ def gen_scn(r, k, forced=None):
     p_save = f.get("p_save", r.choice([0.0, 0.0, 0.08]))
     p_restart = f.get("p_restart", r.choice([0.0, 0.0, 0.06]))
     can_rebin = use_grids and c["keep"] and not any(v["expand"] for v in vars_) and not c["eb"]
-    can_rebin_grids = use_grids and not c["keep"] and not c["eb"]
+    can_rebin_grids = use_grids and not c["keep"] and not c["eb"] and nd < 3     # (84^3 bins dumped at every step otherwise)
     rebin_on = False
+    p_reconf = f.get("p_reconf", 0.3)
     events = []
     prev = None
     cur = [dict(lower=v["lower"], upper=v["upper"], nx=v["nx"]) for v in vars_]   # current boundaries of the configuration
     for s in range(nsteps):
         if s > 0 and r.random() < p_restart:
             m = r.random()
-            if m < 0.25 and not rebin_on:
+            if r.random() < p_reconf:
+                # the run that reads the state is configured with other hill parameters than the run that wrote it
+                events.append(("reconf", gen_par(r, c)))
+                rebin_on = False
+            elif m < 0.25 and not rebin_on:
                 # (an instance configured with rebinGrids rebins again, onto its configured boundaries, at every state it
                 # reads: a reload there is a second rebinning, not modelled)
                 events.append(("reload",))
@@ -210,7 +216,7 @@ def gen_scn(r, k, forced=None):
             if v["periodic"] and r.random() < 0.3:
                 z += r.randint(-2, 2) * v["P"]
             zs.append(z)
-        if events and events[-1][0] in ("restart", "rebin", "reload"):
+        if events and events[-1][0] in ("restart", "rebin", "reload", "reconf"):
             zs = last_zs         # a resumed run starts from the configuration at which the state was written
         last_zs = zs
         prev = [(wrap_exact(z, v["c"], v["P"]) if v["periodic"] else z) for z, v in zip(zs, vars_)]
@@ -219,13 +225,27 @@ def gen_scn(r, k, forced=None):
             events.append(("save",))
         if s > 0 and c["pmf"] and r.random() < 0.12:
             events.append(("pmf",))
-        if events and events[-1][0] in ("restart", "rebin"):
+        if events and events[-1][0] in ("restart", "rebin", "reconf"):
             boundary = False
         if events and events[-1][0] == "reload":
             boundary = True          # the step at which the state was written is computed again
         events.append(("step", boundary, zs))
     c["events"] = events
     return c
+
+
+def gen_par(r, c):
+    """hill parameters of a later run: hillWidth or gaussianSigmas, hillWeight, newHillFrequency"""
+    if r.random() < 0.3:
+        return {"sig_mode": True, "hw": 0.0, "sigmas": [v["w"] * r.choice([0.25, 0.5, 1.0, 1.5, 2.0]) for v in c["vars"]],
+                "W": r.choice([0.125, 0.5, 1.0, 2.0]), "freq": r.choice([1, 1, 2, 3])}
+    hw = r.choice([0.5, 1.0, 1.5, 2.0, 3.0, 4.0])
+    return {"sig_mode": False, "hw": hw, "sigmas": [v["w"] * hw / 2.0 for v in c["vars"]],
+            "W": r.choice([0.125, 0.5, 1.0, 2.0]), "freq": r.choice([1, 1, 2, 3])}
+
+
+def par0(c):
+    return {"sig_mode": c["sig_mode"], "hw": c["hw"], "sigmas": [v["sigma"] for v in c["vars"]], "W": c["W"], "freq": c["freq"]}
 
 
 def step_events(c):
@@ -239,7 +259,7 @@ def steps_of(c):
     run_start = it
     first = True
     for e in c["events"]:
-        if e[0] in ("restart", "rebin"):
+        if e[0] in ("restart", "rebin", "reconf"):
             run_start = it          # the fresh instance resumes at the step of the state
             first = True
             continue
@@ -270,9 +290,11 @@ def atoms_of(c):
     return out, a - 1
 
 
-def config_text(c, geom=None, rebin=False):
-    """the Colvars configuration; geom = [(nx, lower, upper)] replaces the boundaries (restart with rebinGrids)"""
+def config_text(c, geom=None, rebin=False, par=None):
+    """the Colvars configuration; geom = [(nx, lower, upper)] replaces the boundaries (restart with rebinGrids); par = the
+    hill parameters of a reconfigured run (gridsUpdateFrequency is then written out: its default follows newHillFrequency)"""
     first, natoms = atoms_of(c)
+    q = par or par0(c)
     L = ["config EOF"]
     for d, v in enumerate(c["vars"]):
         lower, upper = (v["lower"], v["upper"]) if geom is None else (geom[d][1], geom[d][2])
@@ -296,18 +318,18 @@ def config_text(c, geom=None, rebin=False):
             L += ["  %s {" % ("distanceVec" if v["kind"] == 1 else "distanceDir"),
                   "    group1 { atomNumbers %d }" % first[d], "    group2 { atomNumbers %d }" % (first[d] + 1), "  }", "}"]
     L += ["metadynamics {", "  name m", "  colvars " + " ".join("v%d" % d for d in range(len(c["vars"]))),
-          "  hillWeight %r" % c["W"], "  newHillFrequency %d" % c["freq"], "  writeHillsTrajectory on"]
-    if c["sig_mode"]:
-        L.append("  gaussianSigmas " + " ".join("%r" % v["sigma"] for v in c["vars"]))
+          "  hillWeight %r" % q["W"], "  newHillFrequency %d" % q["freq"], "  writeHillsTrajectory on"]
+    if q["sig_mode"]:
+        L.append("  gaussianSigmas " + " ".join("%r" % t for t in q["sigmas"]))
     else:
-        L.append("  hillWidth %r" % c["hw"])
+        L.append("  hillWidth %r" % q["hw"])
     if not c["use_grids"]:
         L.append("  useGrids off")
     else:
         L.append("  writeFreeEnergyFile %s" % ("on" if c.get("pmf") else "off"))
         if c.get("pmf_keep"):
             L.append("  keepFreeEnergyFiles on")
-        if c["gfreq_explicit"]:
+        if c["gfreq_explicit"] or par is not None:
             L.append("  gridsUpdateFrequency %d" % c["gfreq"])
         if c["keep"]:
             L.append("  keepHills on")
@@ -381,6 +403,7 @@ def scenario_text(c, dump=True):
         if v["kind"] in (1, 2):
             L.append("pos %d 0 0 0" % first[d])
     nstate = 0
+    par = None
     for e in c["events"]:
         if e[0] == "save":
             L.append("save text c05.state")
@@ -392,11 +415,14 @@ def scenario_text(c, dump=True):
             nstate += 1
             L += ["save text c05l%d.state" % nstate, "load c05l%d.state" % nstate]
             continue
-        if e[0] in ("restart", "rebin"):
-            # the state is written, a fresh instance reads it (for "rebin": with new boundaries and rebinGrids on)
+        if e[0] in ("restart", "rebin", "reconf"):
+            # the state is written, a fresh instance reads it (for "rebin": with new boundaries and rebinGrids on; for
+            # "reconf": with other hill parameters, which stay for the later runs)
             nstate += 1
             L += ["metatraj m", "save text c05r%d.state" % nstate, "new"]
-            L += config_text(c, e[1], True) if e[0] == "rebin" else config_text(c)
+            if e[0] == "reconf":
+                par = e[1]
+            L += config_text(c, e[1], True, par) if e[0] == "rebin" else config_text(c, None, False, par)
             L.append("load c05r%d.state" % nstate)
             continue
         boundary, zs = e[1], e[2]
@@ -444,6 +470,9 @@ def model_case(c, xs, dump=True):
         if e[0] == "reload":
             p.append("L")
             continue
+        if e[0] == "reconf":
+            p += ["C"] + [V.hexf(t) for t in e[1]["sigmas"]] + [V.hexf(e[1]["hw"]), V.hexf(e[1]["W"]), str(e[1]["freq"])]
+            continue
         if e[0] == "pmf":
             p += ["P", V.hexf(PMF_TEMP)]
             continue
@@ -476,10 +505,13 @@ def split_comps(c, flat):
 
 
 def parse_hills(c, tokens):
+    """hills as (step, weight, centres, widths)"""
     ncomp = sum(NCOMP[v["kind"]] for v in c["vars"])
+    nd = len(c["vars"])
     hs = []
-    for a in range(0, len(tokens), ncomp + 2):
-        hs.append((int(tokens[a]), fh(tokens[a + 1]), split_comps(c, [fh(t) for t in tokens[a + 2:a + 2 + ncomp]])))
+    for a in range(0, len(tokens), ncomp + nd + 2):
+        hs.append((int(tokens[a]), fh(tokens[a + 1]), split_comps(c, [fh(t) for t in tokens[a + 2:a + 2 + ncomp]]),
+                   [fh(t) for t in tokens[a + 2 + ncomp:a + 2 + ncomp + nd]]))
     return hs
 
 
@@ -491,7 +523,8 @@ def parse_traj(c, text):
     for line in text.split("\n"):
         w = line.replace("(", " ").replace(")", " ").replace(",", " ").split()
         if len(w) == 3 + ncomp + nd and w[0] == "TRAJ":
-            out.append((int(w[1]), float(w[-1]), split_comps(c, [float(t) for t in w[2:2 + ncomp]])))
+            out.append((int(w[1]), float(w[-1]), split_comps(c, [float(t) for t in w[2:2 + ncomp]]),
+                        [float(t) for t in w[2 + ncomp:2 + ncomp + nd]]))
     return out if "TRAJEND" in text else None
 
 
@@ -618,14 +651,16 @@ def centres_same(c1, c2, exact):
 def hills_close(a, b, exact=True):
     if len(a) != len(b):
         return False
-    for (i1, w1, c1), (i2, w2, c2) in zip(a, b):
+    for (i1, w1, c1, s1), (i2, w2, c2, s2) in zip(a, b):
         if i1 != i2 or not centres_same(c1, c2, exact) or not close(w1, w2):
+            return False
+        if len(s1) != len(s2) or any(not close(p, q, 1e-12) for p, q in zip(s1, s2)):
             return False
     return True
 
 
 def has_restart(c):
-    return any(e[0] in ("restart", "rebin", "reload") for e in c["events"])
+    return any(e[0] in ("restart", "rebin", "reload", "reconf") for e in c["events"])
 
 
 def vec_close(a, b):
@@ -729,8 +764,8 @@ def dgrad(v, x, ctr):
 
 def kern(c, x, h):
     q = 0.0
-    for v, xi, ci in zip(c["vars"], x, h[2]):
-        q += dist2(v, xi, ci) / (v["sigma"] * v["sigma"])
+    for v, xi, ci, si in zip(c["vars"], x, h[2], h[3]):     # every hill has its own widths
+        q += dist2(v, xi, ci) / (si * si)
     return 0.0 if q > 23.0 else math.exp(-0.5 * q)
 
 
@@ -747,7 +782,7 @@ def fsum(c, x, hs, i):
             continue
         g = dgrad(v, x[i], h[2][i])
         for j in range(len(out)):
-            out[j] += k * g[j] / (2 * v["sigma"] * v["sigma"])
+            out[j] += k * g[j] / (2 * h[3][i] * h[3][i])
     return out
 
 
@@ -784,7 +819,8 @@ def oracle(c, impl, traj):
     st = steps_of(c)
     tab, pend = [], []
     facts = {"deposits": 0, "projections": 0, "outside_steps": 0, "expansions": 0, "saves": 0, "wt_outside": 0,
-             "wrapped_steps": 0, "restarts": 0, "rebins": 0, "antipodal_steps": 0, "ebmeta_deposits": 0, "reloads": 0, "rebins_from_grids": 0, "bound_checks": 0, "bound_max_ratio": 0.0, "pmf_files": 0}
+             "wrapped_steps": 0, "restarts": 0, "rebins": 0, "antipodal_steps": 0, "ebmeta_deposits": 0, "reloads": 0, "rebins_from_grids": 0, "bound_checks": 0, "bound_max_ratio": 0.0, "pmf_files": 0, "reconfs": 0, "hetero_steps": 0}
+    cur = par0(c)          # the hill parameters of the current run
     restarted = False
     off_at_restart = []
     lingering = False      # after a restart without keepHills the hills near the edges stay listed until the next projection
@@ -822,10 +858,13 @@ def oracle(c, impl, traj):
             if dumps[k][0] != name:
                 return ("pmf:file-name", "free-energy file %d is named %r, expected %r" % (k, dumps[k][0], name), max(n, 0)), facts
             continue
-        if e[0] in ("restart", "rebin", "reload"):
+        if e[0] in ("restart", "rebin", "reload", "reconf"):
             facts["restarts"] += 1
             if e[0] == "reload":
                 facts["reloads"] += 1
+            if e[0] == "reconf":
+                facts["reconfs"] += 1
+                cur = e[1]
             restarted = True
             off_at_restart = list(impl[n]["off"]) if n >= 0 else []
             if c["use_grids"]:
@@ -867,10 +906,14 @@ def oracle(c, impl, traj):
             for v, g, xv in zip(c["vars"], geom, x):
                 if v["gper"] and not (g[1] <= xv[0] < g[2]):
                     facts["wrapped_steps"] += 1
-        deposit = (it % c["freq"] == 0) and ((rel > 0 and not cont) or c["stepzero"])
+        hetero = any(h[3] != cur["sigmas"] for h in tab + pend)     # hills of an earlier run with other widths are in play
+        if hetero:
+            facts["hetero_steps"] += 1
+        asconf = [[(h[0], h[1], h[2], list(cur["sigmas"])) for h in l] for l in (tab, pend)]
+        deposit = (it % cur["freq"] == 0) and ((rel > 0 and not cont) or c["stepzero"])
         if deposit:
             facts["deposits"] += 1
-            wgt = c["W"]
+            wgt = cur["W"]
             pend_before = list(pend)
             ins = True
             ebf = 1.0
@@ -888,23 +931,28 @@ def oracle(c, impl, traj):
                     lam = (c["eb"]["equil"] - it) / float(c["eb"]["equil"])
                     ebf = lam + (1 - lam) * ebf
                 facts["ebmeta_deposits"] += 1
-                wgt = c["W"] * ebf
+                wgt = cur["W"] * ebf
             if c["wt"]:
                 vhere, _, ins = spec_bias(c, geom, x, tab, pend)
-                wgt = c["W"] * (ebf * math.exp(-vhere / (c["bt"] * KB)))
+                wgt = cur["W"] * (ebf * math.exp(-vhere / (c["bt"] * KB)))
                 if c["use_grids"] and not ins:
                     facts["wt_outside"] += 1
-            h = (it, wgt, [list(t) for t in x])
+            h = (it, wgt, [list(t) for t in x], list(cur["sigmas"]))
             # the hill actually added at this step (hills trajectory buffer, 14 significant digits)
             if not traj or traj[0][0] != it or not all(close(a, b, 1e-12) for ta, tb in zip(traj[0][2], x) for a, b in zip(ta, tb)):
                 return ("schedule:missing-hill", "step %d (it=%d, relative %d%s): the schedule prescribes a hill at %s; the next hill "
                         "added by the module is %s" % (n, it, rel, ", repeated step" if cont else "", x, traj[0] if traj else None), n), facts
             seen = [traj.pop(0)]
+            if len(seen[-1][3]) != nd or any(not close(a, b, 1e-12) for a, b in zip(seen[-1][3], cur["sigmas"])):
+                return ("schedule:hill-width", "step %d (it=%d): hill deposited at %s has widths %s, the run is configured with %s" % (
+                    n, it, x, seen[-1][3], cur["sigmas"]), n), facts
             if not close(seen[-1][1], wgt):
                 misaligned = any(v["gper"] and not (g[1] <= xv[0] < g[2]) for v, g, xv in zip(c["vars"], geom, x))
                 eb_outside = bool(c.get("eb")) and any(not (0 <= ffloor((Fr(xv[0]) - Fr(v["lower"])) / Fr(v["w"])) < v["nx"])
                                                         for v, xv in zip(c["vars"], x))
-                if c.get("eb") and eb_outside:
+                if c["wt"] and hetero and close(seen[-1][1], cur["W"] * (ebf * math.exp(-spec_bias(c, geom, x, asconf[0], asconf[1])[0] / (c["bt"] * KB)))):
+                    sig = "widths:hills-evaluated-with-the-configured-width-not-their-own"
+                elif c.get("eb") and eb_outside:
                     sig = "ebmeta:target-read-out-of-range"
                 elif c.get("eb") and seen[-1][1] != seen[-1][1]:
                     sig = "ebmeta:nan-weight-in-ramp"
@@ -921,12 +969,12 @@ def oracle(c, impl, traj):
                 else:
                     sig = "schedule:hill-weight"
                 return (sig, "step %d (it=%d): hill deposited at %s has weight %r, the property prescribes %r "
-                        "(hillWeight %r%s)" % (n, it, x, seen[-1][1], wgt, c["W"],
+                        "(hillWeight %r%s)" % (n, it, x, seen[-1][1], wgt, cur["W"],
                                                ", times exp(-V/kT) with V the bias at that point" if c["wt"] else ""), n), facts
             pend.append(h)
         elif traj and traj[0][0] == it and (n + 1 == len(st) or st[n + 1][0] != it):
             return ("schedule:extra-hill", "step %d (it=%d, relative %d%s): the module added the hill %s at a step that is not "
-                    "eligible (newHillFrequency %d)" % (n, it, rel, ", repeated step" if cont else "", traj[0], c["freq"]), n), facts
+                    "eligible (newHillFrequency %d)" % (n, it, rel, ", repeated step" if cont else "", traj[0], cur["freq"]), n), facts
         if c["use_grids"] and it % c["gfreq"] == 0:
             if pend:
                 facts["projections"] += 1
@@ -964,8 +1012,16 @@ def oracle(c, impl, traj):
         if not close(im["E"], eE) or not force_close(tangential(c, im["F"], x), tangential(c, eF, x)):
             what = "energy %r force %s, sum of the deposited hills gives energy %r force %s" % (im["E"], im["F"], eE, eF)
             misaligned = c["use_grids"] and any(v["gper"] and not (g[1] <= xv[0] < g[2]) for v, g, xv in zip(c["vars"], geom, x))
+            asconf = [[(h[0], h[1], h[2], list(cur["sigmas"])) for h in l] for l in (tab, pend)]
             if misaligned:
                 sig = "periodic:grid-not-aligned-with-wrapping-interval"
+            elif hetero and c["use_grids"] and not ins and close(im["E"], esum(c, x, im["off"]) + esum(c, x, pend)) and \
+                    any(h[3] != cur["sigmas"] and not any(g[0] == h[0] and g[2] == h[2] for g in im["off"]) and kern(c, x, h) != 0.0 for h in tab):
+                # a hill wider than those of the current run, in range of x, is not among the hills kept for use off the grid
+                sig = "reconf:off-grid-margin-from-configured-width"
+            elif hetero and (not c["use_grids"] or not ins or c["keep"]) and close(im["E"], spec_bias(c, geom, x, asconf[0], asconf[1])[0]):
+                # the energy is what the hills would give if all of them had the widths of the current configuration
+                sig = "widths:hills-evaluated-with-the-configured-width-not-their-own"
             elif c["use_grids"] and not ins and restarted and e[0] == "step" and \
                     any(not any(g[0] == h[0] for g in im["off"]) for h in off_at_restart) and e[1] is not None and \
                     not any(ev[0] == "rebin" for ev in c["events"]):
@@ -985,11 +1041,10 @@ def oracle(c, impl, traj):
                 sig = "expand:bins-added-by-expansion-miss-earlier-hills"
             else:
                 sig = "energy" if not close(im["E"], eE) else "force"
-            return (sig, "step %d (it=%d, x=%s, %s the grid): %s" % (n, it, x, "inside" if ins else "outside", what), n), facts
+            return (sig, "step %d (it=%d, x=%s, %s): %s" % (n, it, x, "without grids" if not c["use_grids"] else "inside the grid" if ins else "outside the grid", what), n), facts
         if ins and c["use_grids"] and all(v["kind"] == 0 and not v["periodic"] for v in c["vars"]):
             # C05_discretisation_energy: the returned energy against the analytic sum of all hills at the actual position
-            lipb = math.exp(-0.5) * sum(v["w"] / (2 * v["sigma"]) for v in c["vars"]) + math.exp(-11.5)
-            bound = sum(abs(h[1]) for h in tab) * lipb
+            bound = sum(abs(h[1]) * (math.exp(-0.5) * sum(v["w"] / (2 * si) for v, si in zip(c["vars"], h[3])) + math.exp(-11.5)) for h in tab)
             dev = abs(im["E"] - esum(c, x, tab + pend))
             facts["bound_checks"] += 1
             if bound > 0:
@@ -1009,6 +1064,10 @@ def _var(lower=0.0, nx=8, w=1.0, sigma=1.0, expand=False, **kw):
          "lower": lower, "upper": lower + w * nx, "sigma": sigma}
     v.update(kw)
     return v
+
+
+def _par(sigmas, hw=0.0, W=1.0, freq=1, sig_mode=False):
+    return {"sig_mode": sig_mode, "hw": hw, "sigmas": list(sigmas), "W": W, "freq": freq}
 
 
 def _cfg(cid, vars_, events, **kw):
@@ -1069,6 +1128,17 @@ def witnesses():
         _cfg("w_pmf", [_var()], [[3.5], [3.5], [5.25], "pmf", [1.5], "pmf"], pmf=True),
         _cfg("w_pmf_wt", [_var(), _var(nx=4, w=2.0, sigma=2.0)], [[3.5, 4.5], [3.5, 4.5], [5.25, 1.0], "pmf", [1.5, 7.0], "pmf", [1.5, 7.0], "pmf"],
              pmf=True, pmf_keep=True, wt=True, gfreq_explicit=True, gfreq=2),
+        # the run that reads the state has other hill parameters (hillWidth 2 -> 1 or 4, hillWeight, newHillFrequency): every
+        # hill keeps the width it was deposited with.  Without grids; with grids and excursions off the grid (the hills at
+        # 3.5, of width sigma = 2 bins, are 3.5 bins inside the edge: near it for their own width, not for hillWidth 0.5);
+        # with keepHills and rebinGrids (the kept hills are projected again, each with its own width)
+        _cfg("w_reconf_nogrid", [_var()], [[0.5], [0.5], [1.5], ("reconf", _par([0.5], hw=1.0, W=0.5, freq=2)), [1.5], [1.0], [1.0], [-0.25]], use_grids=False),
+        _cfg("w_reconf_grid_narrower", [_var(sigma=2.0)], [[3.5], [3.5], [3.5], ("reconf", _par([0.25], hw=0.5)), [3.5], [-0.25], [-1.0], [0.5]], hw=4.0),
+        _cfg("w_reconf_grid_wider", [_var(sigma=0.5)], [[4.5], [4.5], [0.5], ("reconf", _par([2.0], hw=4.0, W=2.0)), [0.5], [-0.25], [5.5], [-1.5]], hw=1.0),
+        _cfg("w_reconf_sigmas", [_var(), _var(nx=4, w=2.0, sigma=2.0)], [[3.5, 4.5], [3.5, 4.5], [0.5, 1.0], ("reconf", _par([0.5, 3.0], sig_mode=True)),
+                                                                 [0.5, 1.0], [-0.25, 1.0], [0.5, -0.5], [2.5, 3.0]], gfreq_explicit=True, gfreq=2),
+        _cfg("w_reconf_rebin", [_var(nx=12)], [[5.5], [5.5], [6.5], ("reconf", _par([0.5], hw=1.0)), [6.5], [4.5], ("rebin", [(8, 2.5, 10.5)]), [4.5], [2.25], [10.75], [5.0]], keep=True),
+        _cfg("w_reconf_expand", [_var(expand=True)], [[3.5], [3.5], [1.5], ("reconf", _par([0.5], hw=1.0)), [1.5], [0.25], [-0.25], [-1.5]]),
         # vector variables without grids
         _cfg("w_vec3", [_var(kind=1)], [[[1.0, 0.0, 0.5]], [[1.0, 0.25, 0.5]], [[0.5, 0.25, 0.5]], [[0.5, 0.5, 0.0]]], use_grids=False, wt=True),
         _cfg("w_quat", [_var(kind=3)], [[[1.0, 0.0, 0.0, 0.0, 1.0, 0.0, 0.0, 0.0, 1.0, -1.0, -1.0, -1.0]],
@@ -1146,7 +1216,7 @@ def check_one(run, c, impl, mo, txt, rcv, o, traj, mline):
     run.dist("unit_vector_vars", sum(1 for v in c["vars"] if v["kind"] == 2))
     run.dist("quaternion_vars", sum(1 for v in c["vars"] if v["kind"] == 3))
     run.dist("steps", len(impl))
-    for kk in ("deposits", "projections", "outside_steps", "expansions", "saves", "wt_outside", "wrapped_steps", "restarts", "rebins", "antipodal_steps", "ebmeta_deposits", "reloads", "rebins_from_grids", "bound_checks", "pmf_files"):
+    for kk in ("deposits", "projections", "outside_steps", "expansions", "saves", "wt_outside", "wrapped_steps", "restarts", "rebins", "antipodal_steps", "ebmeta_deposits", "reloads", "rebins_from_grids", "bound_checks", "pmf_files", "reconfs", "hetero_steps"):
         run.dist(kk, facts[kk])
     d_ = run.cov["distribution"]
     d_["bound_max_ratio"] = max(d_.get("bound_max_ratio", 0.0), facts["bound_max_ratio"])
@@ -1169,7 +1239,7 @@ def check_one(run, c, impl, mo, txt, rcv, o, traj, mline):
         run.mismatch("pmf", dict(replay_d), ip[:2], mp[:2])
     mt, it_ = c.get("_model_traj"), c.get("_last_traj")
     if mt is not None and it_ is not None:
-        if len(mt) != len(it_) or any(a[0] != b[0] or not close(a[1], b[1], 1e-9) or not centres_same(a[2], b[2], False) for a, b in zip(mt, it_)):
+        if len(mt) != len(it_) or any(a[0] != b[0] or not close(a[1], b[1], 1e-9) or not centres_same(a[2], b[2], False) or not vec_close(a[3], b[3]) for a, b in zip(mt, it_)):
             run.mismatch("hills_trajectory", dict(replay_d), [(h[0], h[1]) for h in it_], [(h[0], h[1]) for h in mt])
     for n, (im, ms) in enumerate(zip(impl, mo)):
         diff = compare_step(c, im, ms)
@@ -1228,7 +1298,8 @@ def check(run):
                        "wrapping interval or not; periodic with a grid on part of the period; expandBoundaries; hard boundaries) with grids, "
                        "distanceVec / distanceDir without grids; hillWidth/gaussianSigmas, newHillFrequency 1-4, gridsUpdateFrequency default "
                        "or explicit, keepHills, wellTempered, stepZeroData, start step 0-9, run boundaries, state saves, restarts (state written, "
-                       "fresh instance, state read; with keepHills also rebinGrids onto shifted/resized boundaries), 8-30 steps with values on "
+                       "fresh instance, state read; with keepHills also rebinGrids onto shifted/resized boundaries; with other hillWidth / "
+                       "gaussianSigmas / hillWeight / newHillFrequency than the run that wrote the state), 8-30 steps with values on "
                        "bin edges / inside / outside the grid. distinct = scenario; non-trivial = >=3 hills deposited, >=1 projection (with "
                        "grids) and >=1 step outside the grid (where the grid does not span a period)")
     run.assumptions += [
@@ -1251,6 +1322,8 @@ def check(run):
     n = 150 if quick else 4000
     cs += [gen_scn(r, k) for k in range(n)]
     cs += [gen_scn(r, "f%d" % k, REBIN_FOCUS) for k in range(20 if quick else 600)]
+    cs += [gen_scn(r, "c%d" % k, RECONF_FOCUS) for k in range(25 if quick else 600)]
+    cs += [gen_scn(r, "d%d" % k, dict(REBIN_FOCUS, p_reconf=0.45, p_restart=0.2)) for k in range(10 if quick else 300)]
     nsample = 0
     for (c, impl, mo, txt, rcv, o, traj, mline) in run_scenarios(run, exe, model, cs, d):
         check_one(run, c, impl, mo, txt, rcv, o, traj, mline)
